@@ -199,12 +199,18 @@ theorem throttle_once_outbound_combo (c : Bool) :
     (BKind.outbound c).faithful = true ∧ (BKind.combo c).faithful = true ∧ BKind.comboDisabled.faithful = true := by
   cases c <;> decide
 
-/-- **Negative (confirmed on the real code).**  `SimpleBreaker.Do` runs `f` when `Closed || Disabled` but reports
-`Closed`: with a disabled, open SimpleBreaker one `Submit` runs the function once per attempt and still reports
-exhaustion. -/
-theorem throttle_simple_disabled_runs_every_attempt (attempts : Nat) :
-    submitLoop attempts (List.replicate attempts (.simple false true)) = (attempts, false) :=
-  simple_disabled_loop attempts attempts 0 (by omega)
+/-- `SimpleBreaker.Do` reports `attempted` exactly when it ran the function (`Closed || Disabled`, regenerated from the
+source): every breaker kind is faithful, so `throttle_once` applies to every breaker a Throttle can wrap. (Before the
+repair in /repo `Do` reported `Closed` alone and a disabled, open SimpleBreaker made one `Submit` run the function once
+per attempt.) -/
+theorem simple_breaker_faithful (closed disabled : Bool) : (BKind.simple closed disabled).faithful = true :=
+  simple_faithful closed disabled
+
+/-- a disabled, open SimpleBreaker under a Throttle: the function runs once, on the first attempt, and `Submit` reports
+that it worked -/
+theorem throttle_simple_disabled_runs_once (attempts : Nat) (h : 0 < attempts) :
+    submitLoop attempts (List.replicate attempts (.simple false true)) = (1, true) :=
+  simple_disabled_once attempts h
 
 /-! ## Capacity -/
 
